@@ -103,6 +103,10 @@ Proof.
     + destruct (m =? 2); [|exact I].
       apply normal_bind; [apply dec_until_break_normal; [exact dec_chunk_normal|lia]|]. intros [l r']. exact I.
   - (* SNamed *) intros id s IH bs. cbn [dec]. apply IH.
+  - (* SArrOpt *) intros fs IHfs o IHo bs. cbn [dec]. nb. intros [n r]. destruct (n =? slen fs).
+    + apply normal_bind; [apply IHfs|]. intros [l r']. exact I.
+    + destruct (n =? 1 + slen fs); [|exact I]. apply normal_bind; [apply IHfs|]. intros [l r1].
+      apply normal_bind; [apply IHo|]. intros [x r2]. exact I.
   - (* SNil *) intros bs. exact I.
   - (* SCons *) intros s IH r IHr bs. cbn [dec_sl]. apply normal_bind; [apply IH|]. intros [v b1].
     apply normal_bind; [apply IHr|]. intros [l b2]. exact I.
